@@ -10,6 +10,10 @@ CLAIMED = {
          "Whole programs (functions, closures, loops, early returns, static/dynamic/native calls, tables, submodule) are generated well-scoped by construction and run both through compile+VM and through a reference AST interpreter that shares no code or representation with cao-lang; outcome kind, all globals read by name and the host-call log must agree exactly. Class coverage (calls above other frames, loops with locals, return in loop, dynamic calls, table ops, >16 globals) is measured and has floors. Search, not proof.",
          "Trusts the reference interpreter (src/refsem.rs) as the meaning of the card language; situations the language leaves undefined are discarded by the reference, never guessed. No collection runs (256 MiB limit).",
          "DESIGN.md section 4, C01"),
+ "C02": ("fault_enumeration", "schedule enumeration: generated allocation-heavy programs re-run under a forced collection at EVERY single allocation point (plus every-allocation, random subsets and the natural trigger), differential against the collection-free run, with quarantined+poisoned swept objects and a reachability audit",
+         "Generated programs (temporaries as operands of table instructions, closures called on the spot or by host functions, captured strings/tables, allocating and re-entering natives, std functions with allocating key functions) and host-API value insertion are executed once without collections and then once per allocation index with a collection forced exactly there (exhaustive over the program's allocation points when it has <= 48 of them), under a collection at every allocation, under two random subsets and under the natural trigger with a small limit. Swept objects keep a poisoned header (hook), so a stale reference is recognised deterministically: observation equality with the collection-free run, plus an audit that nothing reachable from stack / globals / tables / closures / captured cells is a swept object. Workers are isolated processes (crashes are reported).",
+         "A forced collection calls the same RuntimeData::gc at the same place the natural trigger does. Quarantine keeps only the object header alive; real use-after-free of payload bytes is therefore observed as a poisoned-object read, not under ASan.",
+         "DESIGN.md section 4, C02"),
  "C03": ("exploration", "metamorphic and counter-based testing of generated (also non-terminating) programs under generated budget sets (proptest-driven)",
          "Programs built without the termination rule (while(1), unbounded recursion, repeat 10^9, looping callbacks under every re-entering std function and under host natives, up to three native->script levels) and ordinary generated programs are run under budgets from 1..64, 1..20000 and k-1/k/k+1/k/2 around the complete run's length k. An independent per-dispatch counter (hook) must never exceed the budget; runs with a sufficient budget must reproduce the complete run exactly; insufficient budgets must end in Timeout with a prefix-consistent host log; never-finishing programs must time out under every budget.",
          "Trusts the hook counter (one increment per dispatched instruction, independent of the budget field) and the isolated-process watchdog for real hangs.",
